@@ -169,6 +169,16 @@ func runC01(o *opts) error {
 			depth := g.weighted([]int{25, 30, 25, 15, 5})
 			f := g.filter(store, depth, dotted)
 			top := &c01Filter{k: "q", a: f}
+			if g.r.chance(8) { // the paging counters of the id scanners (sorting is C02)
+				v := g.pickI([]int64{0, 1, 2, -1, 5})
+				top.skip = &v
+				r.stats["top-level:skip"]++
+			}
+			if g.r.chance(8) {
+				v := g.pickI([]int64{-1, 0, 1, 2, 3, 10})
+				top.limit = &v
+				r.stats["top-level:limit"]++
+			}
 			r.stats[fmt.Sprintf("nesting:%d", top.depth())]++
 			r.runFilter(store, top)
 		}
@@ -285,7 +295,7 @@ func c01ParseVal(t string) c01Val {
 	case 'f':
 		var bits uint64
 		fmt.Sscanf(rest, "%x", &bits)
-		return c01Val{k: 'f', f: float64frombits(bits)}
+		return c01Val{k: 'f', f: c01Float64frombits(bits)}
 	case 's':
 		return c01Val{k: 's', s: string(unhx(rest))}
 	case 't':
